@@ -1587,9 +1587,11 @@ def pm15_monotone(r, R):
     ob(r, "PM15.children-never-replaced", ("C06", "C01"), "library", not seen["children"], "the children vector is never replaced wholesale" if not seen["children"] else
        "children assigned at %s" % [s.loc() for _, s in seen["children"]], key="PM15|children")
     # constructor values
+    from .common import look_through_private
     for b in lib.real_bodies():
         if "std::clone::Clone" in b.name:
             continue
+        b = look_through_private(lib, b)
         for s in b.assigns():
             rv = s.node["rv"]
             if rv["k"] == "agg" and rv.get("adt") == "element::Element":
@@ -1603,7 +1605,8 @@ def pm15_monotone(r, R):
                    "constructor defaults: standalone=%s count=%s text=%s" % (term_s(vals["standalone"]), term_s(vals["count"]), term_s(vals["text"])), s, "PM15|new")
                 # every attribute of a new element is Mandatory
                 a = vals["attributes"]
-                mand = any(st[0] == "fn" and st[1].endswith("Necessity::Mandatory") for st in mir.subterms(a))
+                mand = any(st[0] == "fn" and st[1].endswith("Necessity::Mandatory") for st in mir.subterms(a)) or \
+                    (a[0] == "call" and a[1] in ("std::vec::Vec::new",))      # no attributes at all
                 for st in mir.subterms(a):
                     if st[0] == "fn" or (st[0] == "agg" and st[1] in R.lib.bodies):
                         clo = R.lib.bodies.get(st[1])
